@@ -23,15 +23,20 @@ pub struct Case {
 pub fn strategy(max_r: usize, max_n: usize, max_calls: usize) -> BoxedStrategy<Case> {
     decoder_matrix(max_r, max_n)
         .prop_flat_map(move |h| {
-            let call = (llr_vector(&h), limit_strategy(), prop::bool::weighted(0.12));
+            let call = (llr_vector(&h), limit_strategy(), 0..100u8);
             (Just(h), proptest::collection::vec(call, 1..=max_calls))
         })
         .prop_map(|(h, raw)| {
             let mut calls: Vec<Call> = Vec::new();
             for (llrs, limit, repeat) in raw {
-                if repeat && !calls.is_empty() {
+                if repeat < 12 && !calls.is_empty() {
                     let prev = calls.last().unwrap().clone();
                     calls.push(prev);
+                } else if repeat < 26 && !calls.is_empty() {
+                    // the same frame again (the previous one, or an earlier one) under another limit
+                    let src = if repeat % 2 == 0 { calls.len() - 1 } else { (repeat as usize) % calls.len() };
+                    let prev = calls[src].clone();
+                    calls.push(Call { llrs: prev.llrs, limit });
                 } else {
                     calls.push(Call {
                         llrs: llrs.into_iter().map(Fx).collect(),
@@ -107,7 +112,7 @@ pub fn property() -> Property {
         subs: vec![
             Box::new(Sub {
                 name: "fresh-vs-reused",
-                rule: "one generated H (C01 generator, 1..=8 x 2..=14) and a history of 1..=20 calls (LLR classes of C01: converging noisy codewords, garbage, exact codewords, specials, zero blocks, extremes; limits {0,1,2,3,5,10,30,200}; 12% exact repeats of the previous call); every call on the long-lived decoder of each of the 36 names must equal (Result, word, iterations) the call on a decoder freshly built for it; non-trivial = history of >= 2 calls containing an iterating call and a failure or a limit change; inner evaluations = compared calls",
+                rule: "one generated H (C01 generator, 1..=8 x 2..=14) and a history of 1..=20 calls (LLR classes of C01: converging noisy codewords, garbage, exact codewords, specials, zero blocks, extremes; limits {0,1,2,3,5,10,30,200}; 12% exact repeats of the previous call, 14% the frame of an earlier call again under a newly drawn limit); every call on the long-lived decoder of each of the 36 names must equal (Result, word, iterations) the call on a decoder freshly built for it; non-trivial = history of >= 2 calls containing an iterating call and a failure or a limit change; inner evaluations = compared calls",
                 cases: |t| t.pick(15_000, 400_000),
                 strategy: |_| strategy(8, 14, 20),
                 check,
